@@ -1401,6 +1401,8 @@ class Gen(object):
             if rng.random() < 0.9:
                 logged = logged + [[5, {"t": t}]]
             return ["rawwrite", t, logged, decl]
+        if depth > 0 and rng.random() < self.p_handler:
+            return ["handler", self.stmts(depth, enclosing, c)]      # same depth: actions start inside the handler
         r = rng.random()
         if depth > 0 and r < 0.45:
             h = self.new_h()
@@ -1441,8 +1443,6 @@ class Gen(object):
         if r < 0.62 + self.p_raise:
             return ["raise", self.exn()]
         r2 = rng.random()
-        if depth > 0 and rng.random() < self.p_handler:
-            return ["handler", self.stmts(depth - 1, enclosing, c)]
         if depth > 0 and r2 < self.p_try:
             return ["try", self.stmts(depth - 1, enclosing, c)]
         if r2 < self.p_try + self.p_tb:
